@@ -45,9 +45,23 @@ def check_weighted_l2(prog, report):
         'np.dot(res_sqr,self.gauss_2d.weights)',
         'np.dot(self.gauss_2d.weights,res_sqr)')
     rs = a.get('res_sqr')
-    oks = rs is not None and text(rs).replace(' ', '') in (
-        'np.asarray(residual(t,x_hat,%s.gamma_space))**2' % e,
-        'residual(t,x_hat,%s.gamma_space)**2' % e)
+    oks = False
+    if rs is not None:
+        from .absint import inlined
+        Rs = sp.Symbol('R', real=True)
+
+        def hook(L_, node):
+            if text(node.func) == 'residual' and [
+                    text(x) for x in node.args] == [
+                        't', 'x_hat', e + '.gamma_space']:
+                return Rs
+            return None
+        try:
+            val = Lifter(fi.module, call_hook=hook).lift(
+                inlined(rs, fn, keep=('t', 'x_hat')))
+            oks = sp.expand(val - Rs**2) == 0
+        except AnalysisError:
+            oks = False
     tt = a.get('t')
     xx = a.get('x_hat')
     okp = tt is not None and xx is not None and text(tt).replace(
@@ -448,7 +462,9 @@ def check_accumulation(prog, report):
                 app[0].args[0], ast.Tuple) and text(
                     app[0].args[0].elts[0]) == nb + '.glob_idx'
         ret = [n for n in ast.walk(fi.node) if isinstance(n, ast.Return)]
-        okr = len(ret) == 1 and text(ret[0].value).replace(' ', '') in (
+        from .absint import inlined
+        okr = len(ret) == 1 and text(inlined(ret[0].value, fi.node)).replace(
+            ' ', '') in (
             '(math.fsum([valforelem,valinips]),ips)',
             '(sum([valforelem,valinips]),ips)',
             '(math.fsum(valforelem,valinips),ips)')
